@@ -109,7 +109,7 @@ def run(tier, seed, replay=None):
             # the machine is busy: real-time TTL steps were disturbed; repeat with a coarser clock and fewer processes
             vlib.log("[replay] %s: timing disturbed, repeating with a 40 ms clock unit" % name)
             rep = replay(40, max(4, vlib.NCPU // 2))
-        if rep["evaluations"] and rep["inconclusive"] > 0.3 * rep["evaluations"]:
+        if rep["evaluations"] and rep["inconclusive"] > 0.3 * rep["evaluations"] and not rep["divergences"]:
             raise vlib.Infra("too many behaviours with disturbed timing (%d of %d)" % (rep["inconclusive"], rep["evaluations"]))
         ck.add_report(rep)
         ck.cov["inconclusive_" + name] = rep["inconclusive"]
